@@ -2,7 +2,7 @@
 # usage: seedtest.sh <patch.diff> <ID> [<ID> ...]   -- apply a seeded change to /repo, run checks, undo.
 # Never leaves /repo modified. Prints one line per check: "<ID> exit=<code> <first violation signature>"
 set -u
-patch="$1"; shift
+patch="$(readlink -f "$1")"; shift
 cd /repo || exit 2
 if [ -n "$(git status --porcelain --untracked-files=no)" ]; then echo "repo not clean"; exit 2; fi
 if ! git apply --check "$patch" 2>/dev/null; then
